@@ -40,8 +40,8 @@ MANIFEST = dict(
     text=('Proof: Lean theorems X_shape / X_elem / X_inBounds (all ranks, extents and arguments, positive extents as guard) about a hand-written '
           'model of the index functions of tile, repeat (scalar / per-element / axis None, every accepted axis incl. negative), roll (any shift, one axis / '
           'several axes incl. repeated ones = summed shifts / None), pad, take (negative and repeated entries, negative axes, None), concatenate, resize, '
-          'compress, tril/triu, diagflat, tri/eye/identity, the stack family (through concatenate + flat-order preservation of reshape); one-axis / '
-          'equal-section cases of expand, sliding_window and split; diagonal for matrices with every offset (partial: rank 2). The model is tied to the '
+          'compress, tril/triu, diagflat, tri/eye/identity, the stack family (through concatenate + flat-order preservation of reshape), '
+          'expand (one axis and any axis list incl. repeats, per-axis spacings); one-axis / equal-section cases of sliding_window and split; diagonal for matrices with every offset (partial: rank 2). The model is tied to the '
           'C++ by a differential run of every view over an exhaustive small scope on every check and cross-checked against NumPy / the documented '
           'definitions. The defects found on the original tree (negative axis in repeat / take / concatenate / stack / compress, negative take '
           'entries, repeated roll axes, diagonal with negative or too large offset, split cut points beyond the extent, arange negative count / negative '
@@ -59,7 +59,6 @@ ASSUMPTIONS = [
 ]
 PARTIAL = [
     'diagonal2d_*_partial: diagonal proved for rank 2, axes (0,1), every offset (negative, empty result); full statement (any rank, any accepted axis pair) kept in Props/C04.lean, under correspondence for every rank',
-    'expand_*: proved for one axis (any accepted sign); several axes / per-axis spacings under correspondence only',
     'slidingWindow_*: proved for a scalar window on one axis; window lists, axis lists and axis None under correspondence only',
     'split_*: proved for N equal sections; cut-point lists under correspondence only',
     'where, arange, linspace, full/zeros/ones(_like): no theorem (where: plumbing over broadcast, C06/C07; generators: IMPL vs NumPy only)',
